@@ -10,7 +10,9 @@ import (
 	jsoniter "github.com/json-iterator/go"
 )
 
-var json = jsoniter.ConfigFastest
+// Job variables can be arbitrary JSON values: use a configuration that keeps the full precision of numbers
+// (ConfigFastest marshals floats with 6 digits only)
+var json = jsoniter.ConfigDefault
 
 type PersistedJob struct {
 	ID       uuid.UUID
